@@ -63,6 +63,27 @@ def producers(ctx, rule='A5'):
                             marked_rows(s_.ast.targets[0].slice.elts[0]) for s_ in imps)
     ctx.ob(rule, fkey(fn, rule, 'enumeration-imputes-canonical'), ok, fn.where,
            'the enumeration imputes exactly the marked entries with _get_inactive_value of that variable', '')
+    # the table is created with an integer dtype, the canonical inactive value of a continuous variable is a
+    # fraction (midpoint of the bounds): the table is widened to float before anything fractional is stored in it
+    if imps:
+        arr_ = norm(imps[0].ast.targets[0].value)
+        int_created = [a for a in walk_fn(fn) if isinstance(a, ast.Assign) and norm(a.targets[0]) == arr_ and
+                       any(isinstance(c, ast.Call) and (k := kwarg(c, 'dtype')) is not None and
+                           norm(k) in ('int', 'np.int64', 'np.int32', 'np.int_') for c in ast.walk(a.value))]
+        giv = ctx.prog.cls(GP).methods.get('_get_inactive_value')
+        fractional = giv is not None and any(
+            (isinstance(x, ast.BinOp) and isinstance(x.op, ast.Div)) or
+            (isinstance(x, ast.Constant) and isinstance(x.value, float))
+            for r in returns_of(giv) if r.value is not None for x in ast.walk(r.value))
+        if int_created and fractional:
+            widen = [n for n in cfg.nodes if n.kind == 'stmt' and isinstance(n.ast, ast.Assign) and
+                     norm(n.ast.targets[0]) == arr_ and isinstance(n.ast.value, ast.Call) and
+                     call_name(n.ast.value) == 'astype' and n.ast.value.args and
+                     norm(n.ast.value.args[0]) in ('float', 'np.float64', 'np.float_', 'np.double')]
+            guards.check_passes(ctx, rule, fn, imps, widen, 'enumeration-table-float-before-imputation',
+                                'the enumeration table (created with an integer dtype) is converted to float before '
+                                'the canonical inactive values - fractions for continuous variables - are stored in '
+                                'it (a store into the integer table would truncate them)')
     ok = 'x = -np.ones((dv_sel.shape[0], n_dv), dtype=int)' in txt
     ctx.ob(rule, fkey(fn, rule, 'enumeration-starts-all-inactive'), ok, fn.where,
            'the enumeration table starts all-inactive (-1): a variable is active only where a value was written', '')
@@ -220,6 +241,10 @@ def check(ctx):
 from ..selftest import V  # noqa: E402
 
 VARIANTS = [
+    V('imputes-into-integer-table', 'optimization/graph_processor.py',
+      [("        x = x.astype(float)\n        for i_dv, dv in enumerate(self.all_des_vars):\n            inactive_value = self._get_inactive_value(dv)\n            x[x[:, i_dv] == X_INACTIVE_VALUE, i_dv] = inactive_value\n",
+        "        for i_dv, dv in enumerate(self.all_des_vars):\n            inactive_value = self._get_inactive_value(dv)\n            x[x[:, i_dv] == X_INACTIVE_VALUE, i_dv] = inactive_value\n        x = x.astype(float)\n")],
+      key='enumeration-table-float-before-imputation'),
     V('fast-forgets-auto-taken-choices', 'optimization/hierarchy/fast.py',
       [("                for i_single, i_opt_single in single_taken_cache[cache_key]:\n                    taken_sel_opt[i_single] = i_opt_single\n", "")], key='auto-taken-choices-recorded'),
     V('desvar-compared-by-value', 'optimization/dv_output_defs.py',
